@@ -441,6 +441,11 @@ fn judge(it: &Item, baseline_packets: usize, obs: &Obs) -> Vec<(String, String)>
 }
 
 pub fn run(cli: Cli) -> ! {
+    run_with(cli, &|_| {})
+}
+
+/// `extra` adds to the same report (netsim hosts this check and adds whole connections through the assembled router)
+pub fn run_with(cli: Cli, extra: &dyn Fn(&Report)) -> ! {
     let rep = Report::new("C04", cli.tier, "fault_enumeration");
     if let Some(case) = cli.replay.clone() {
         let it: Item = serde_json::from_value(case["item"].clone()).unwrap_or_else(|e| common::machinery(&format!("bad replay: {e}")));
@@ -539,9 +544,11 @@ pub fn run(cli: Cli) -> ! {
     }
     let distinct: Mutex<HashSet<String>> = Mutex::new(HashSet::new());
     let errors = AtomicU64::new(0);
+    let largest = AtomicU64::new(0);
     par_for(items.len(), |i| {
         let it = &items[i];
         let obs = crate::sim::run(&build(it));
+        largest.fetch_max(obs.max_alloc as u64, Ordering::Relaxed);
         if obs.result.is_err() {
             errors.fetch_add(1, Ordering::Relaxed);
         }
@@ -552,6 +559,8 @@ pub fn run(cli: Cli) -> ! {
     });
     let d = distinct.lock().unwrap().len() as u64;
     rep.require("runs ending in an error", errors.load(Ordering::Relaxed), 1000);
+    // (the counting allocator must be this process's global allocator, or the allocation oracle sees nothing)
+    rep.require("bytes of the largest single allocation the counting allocator saw", largest.load(Ordering::Relaxed), 256);
     rep.require("distinct (state, class, result) triples", d, 100);
     rep.set("evaluations", json!(items.len()));
     rep.set("distinct_nontrivial", json!(d));
@@ -563,5 +572,6 @@ pub fn run(cli: Cli) -> ! {
     rep.sample(json!({"item": items[items.len() - 1]}));
     rep.assume("'every byte sequence' is covered as well-formed transcripts with one mutated frame per run (deviation bound 1) from the stated alphabet");
     rep.assume("the largest single allocation is measured by a counting global allocator armed only while the handler runs (harness transport and adapters excluded); bound 2*max_packet_length + 64 KiB");
+    extra(&rep);
     rep.finish()
 }
